@@ -129,17 +129,24 @@ Proof. exact shell_preview_example. Qed.
 (* ---------------- lifecycle ----------------
    `run sched` executes ANY list of actions of the waiter, the two output pumps, the child and cancel
    requests (disabled actions are skipped, so every list is a schedule: every interleaving, a cancel
-   at any moment, repeated cancels, early EOF, wait failures).  The frames emitted are a prefix of a
-   word of  Spawned · Running? · Delta* · (CancelReq · Delta* · Cancelled)? · Status  and a complete
-   word exactly when the waiter has finished — or the single frame `Status failed` of a pre-spawn
-   failure (unsupported tool / invalid args / artifacts dir), which has no spawn frame (S12b). *)
+   at any moment, repeated cancels, early EOF, wait failures, refused requests).  The frames emitted
+   are a prefix of a word of  Spawned · Running? · Delta* · (CancelReq · Delta* · Cancelled)? · Status
+   and a complete word exactly when the waiter has finished. *)
 Theorem c17_lifecycle : forall sched : list act,
   let s := run sched in
   let t := trace s in
-  (r_prefix_ok (recognise t) = true /\ (s_main s = MEnd <-> r_complete (recognise t) = true))
-  \/ (spawnless_failed t = true /\ s_main s = MEnd).
+  r_prefix_ok (recognise t) = true /\ (s_main s = MEnd <-> r_complete (recognise t) = true).
 Proof. exact lifecycle_language. Qed.
 Print Assumptions c17_lifecycle.
+
+(* S12b — run_task before the repair: a refused request (unsupported tool / invalid args / artifacts
+   dir) failed before the spawn frame; the stream was the single frame `Status failed`, which does not
+   open with a spawn frame.  Replayed on the real code (POST /tasks with args {"command": 17}), fixed. *)
+Theorem c17_spawnless_opening_unfixed_refuted :
+  exists sched, trace (run_unfixed sched) = [LStatus 4]
+                /\ r_prefix_ok (recognise (trace (run_unfixed sched))) = false.
+Proof. exact spawnless_unfixed_refuted. Qed.
+Print Assumptions c17_spawnless_opening_unfixed_refuted.
 
 (* nothing follows the terminal status frame, whatever happens afterwards *)
 Theorem c17_terminal_is_last : forall sched more : list act,
